@@ -55,6 +55,15 @@ def input_vars(shape, nT):
     return {n: Z(n) for n in names}
 
 
+def swapped(V):
+    """the same model with the heating/cooling triples exchanged (a document whose balance points are in reversed order)"""
+    W = dict(V)
+    for a, b in (("hdd_bp", "cdd_bp"), ("hdd_beta", "cdd_beta"), ("hdd_k", "cdd_k")):
+        if a in V and b in V:
+            W[a], W[b] = V[b], V[a]
+    return W
+
+
 def domain(shape, V, strict_slopes=True):
     """validity predicate of a stored sub-model (what fit + reduce_model can produce, see C12)"""
     c = [V["T_min"] <= V["T_min_seg"], V["T_min_seg"] <= V["T_max_seg"], V["T_max_seg"] <= V["T_max"],
@@ -147,15 +156,17 @@ def real_smooth_coeffs(vals):
     return [float(x) for x in bm.get_smooth_coeffs(vals["hdd_bp"], vals["hdd_k"], vals["cdd_bp"], vals["cdd_k"])]
 
 
-def sym_predict_submodel(shape, nT, assume=()):
-    """run the real DailyModel._predict_submodel on proxies (call inside Engine.explore + symbolic_daily)."""
+def sym_predict_submodel(shape, nT, assume=(), reverse=False):
+    """run the real DailyModel._predict_submodel on proxies (call inside Engine.explore + symbolic_daily).
+    reverse=True: the document lists the balance points in reversed order (heating/cooling triples exchanged);
+    the domain and the reference are stated on the ordered twin."""
     V = input_vars(shape, nT)
     eng = E.cur()
     for c in domain(shape, V):
         eng.assume(c)
     for c in assume:
         eng.assume(c)
-    vals = {k: SReal(v) for k, v in V.items()}
+    vals = {k: SReal(v) for k, v in (swapped(V) if reverse else V).items()}
     sub = make_submodel(shape, vals)
     m = object.__new__(dm.DailyModel)
     T = symarr([vals[f"T{i}"] for i in range(nT)])
